@@ -1,12 +1,15 @@
 (* C01 - Time-scale conversions agree with the defined offsets and are invertible.
-   Only statements, each closed by `exact <lemma>` and followed by Print Assumptions. *)
+   Only statements, each closed by `exact <lemma>` and followed by Print Assumptions.
+   Epochs are Julian dates x = jd1 + jd2 in Q (days); the specification model S is Model/C01_Scales.v with all
+   quirks off (exact arithmetic, table/constants/graph regenerated from the source on every run). *)
 From Coq Require Import ZArith QArith Qabs Bool List String.
 From Verif Require Import Lib.Dyadic Gen.C01_TaiUtc Gen.C01_Const Gen.C01_Graph Spec.C01_IersTaiUtc
      Model.C01_Scales Proofs.C01_Scales.
 Import ListNotations.
 Open Scope Q_scope.
 
-(* the regenerated table: rows contiguous, non-empty, bounds at 0h (half-integer JD), as many rows as published entries *)
+(* the regenerated table: non-empty, rows contiguous (end_i = start_{i+1}, start < end), bounds at 0h (half-integer JD),
+   as many rows as published entries *)
 Theorem taiutc_wf : table_wf table = true /\ List.length table = List.length published.
 Proof. exact table_is_wf. Qed.
 Print Assumptions taiutc_wf.
@@ -16,11 +19,14 @@ Theorem taiutc_loaded_is_text : all2 row_nearest taiutc_txt taiutc_loaded = true
 Proof. exact loaded_is_text. Qed.
 Print Assumptions taiutc_loaded_is_text.
 
-(* the regenerated table is the published TAI-UTC history (hand-typed oracle Spec/C01_IersTaiUtc.v) *)
+(* the regenerated table is the published TAI-UTC history (hand-typed oracle Spec/C01_IersTaiUtc.v):
+   same dates (computed from the civil calendar), same offset/drift function on every row *)
 Theorem taiutc_matches_published : match_published table published = true.
 Proof. exact table_matches_published. Qed.
 Print Assumptions taiutc_matches_published.
 
+(* L_G and T_0 of constant.txt are the IERS 2010 values; 19 s and 32.184 s; the loaded doubles are the correctly
+   rounded texts; Unit.seconds2day is the double nearest 1/86400 *)
 Theorem constants_match_published :
   L_G == L_G_iers2010 /\ T0 == T_0_iers2010 /\ T_0_txt == T_0_iers2010 /\
   c_gps * day_s == tai_minus_gps_s /\ c_tt * day_s == tt_minus_tai_s /\
@@ -30,3 +36,148 @@ Theorem constants_match_published :
   is_nearest_double (1 / day) seconds2day_loaded = true.
 Proof. exact constants_ok. Qed.
 Print Assumptions constants_match_published.
+
+(* the row in force at an instant is unique, and the lookup (first True of np.argmax) finds it *)
+Theorem row_unique : forall r r' x, In r table -> In r' table ->
+  in_row x r = true -> in_row x r' = true -> r = r' /\ find_row table x = r.
+Proof.
+  intros r r' x H H' Hx Hx'. split; [exact (row_unique_lemma2 r r' x H H' Hx Hx')|].
+  apply in_row_iff in Hx. apply row_unique_lemma; tauto.
+Qed.
+Print Assumptions row_unique.
+
+(* UTC -> TAI adds exactly the published TAI-UTC in force at that UTC instant: for every epoch from 1961-01-01 to
+   9999-12-31, k-th published entry e valid from its date to the next entry's date *)
+Theorem utc_tai_defining : forall k e x, nth_error published k = Some e ->
+  e_start e <= x -> x < next_start published k ->
+  utc2tai x == x + e_value e x / day_s.
+Proof. exact utc_tai_defining_lemma. Qed.
+Print Assumptions utc_tai_defining.
+
+(* TAI - GPS = 19 s, both directions, every epoch *)
+Theorem gps_tai_19 : forall x, gps2tai x - x == tai_minus_gps_s / day_s /\ x - tai2gps x == tai_minus_gps_s / day_s.
+Proof. exact gps_tai_lemma. Qed.
+Print Assumptions gps_tai_19.
+
+(* TT - TAI = 32.184 s *)
+Theorem tt_tai_32184 : forall x, tai2tt x - x == tt_minus_tai_s / day_s /\ x - tt2tai x == tt_minus_tai_s / day_s.
+Proof. exact tt_tai_lemma. Qed.
+Print Assumptions tt_tai_32184.
+
+(* TCG - TT = L_G/(1-L_G) (TT - T0), from a TT date and from a TCG date *)
+Theorem tcg_tt_LG : forall x,
+  tt2tcg x - x == L_G / (1 - L_G) * (x - T0) /\ tcg2tt x - x == - (L_G / (1 - L_G) * (tcg2tt x - T0)).
+Proof. exact tcg_tt_lemma. Qed.
+Print Assumptions tcg_tt_LG.
+
+(* the gps/tai, tai/tt, tt/tcg hops are exact inverses of each other *)
+Theorem hop_inverse_exact : forall x,
+  gps2tai (tai2gps x) == x /\ tai2gps (gps2tai x) == x /\
+  tai2tt (tt2tai x) == x /\ tt2tai (tai2tt x) == x /\
+  tt2tcg (tcg2tt x) == x /\ tcg2tt (tt2tcg x) == x.
+Proof. exact hop_inverse_lemma. Qed.
+Print Assumptions hop_inverse_exact.
+
+(* UTC -> TAI -> UTC (two-step inverse as coded) returns the instant within 4 ns, for every UTC instant u of every
+   row r with successor n, except: the first microsecond of a drift row (see utc_tai_utc_boundary_refuted), its last
+   microsecond, and the UTC labels `skip r n` that never existed because TAI-UTC stepped down (skips_are) *)
+Theorem utc_tai_utc : forall r n u, adjacent table r n -> rt_dom r n u ->
+  Qabs (tai2utc (utc2tai u) - u) <= 4 * ns.
+Proof. exact utc_tai_utc_lemma. Qed.
+Print Assumptions utc_tai_utc.
+
+(* on the leap-second rows (1972 ...) the round trip is the identity for EVERY instant of the row,
+   including the second before a leap second and the boundary itself; likewise on the open last row *)
+Theorem utc_tai_utc_exact_on_leap_rows :
+  (forall r n u, adjacent table r n -> is_const r = true -> r_start r <= u -> u < r_end r -> tai2utc (utc2tai u) == u) /\
+  (forall u, r_start (last_row table) <= u -> u + 1 < r_end (last_row table) -> tai2utc (utc2tai u) == u).
+Proof. split; [exact utc_tai_utc_leap_lemma|exact utc_tai_utc_last_lemma]. Qed.
+Print Assumptions utc_tai_utc_exact_on_leap_rows.
+
+(* TAI -> UTC -> TAI for every TAI instant that is the image of a UTC instant of the domain
+   (this excludes exactly the TAI instants inside an inserted leap second) *)
+Theorem tai_utc_tai : forall r n u, adjacent table r n -> rt_dom r n u ->
+  Qabs (utc2tai (tai2utc (utc2tai u)) - utc2tai u) <= 8 * ns.
+Proof. exact tai_utc_tai_lemma. Qed.
+Print Assumptions tai_utc_tai.
+
+(* the breadth-first search over the regenerated edge list finds a route for all 25 ordered pairs, made of hops the model knows *)
+Theorem routes_total :
+  forallb (fun a => forallb (fun b => (a =? b)%string || match find_hops a b with
+                                      | Some hs => forallb (fun h => match hop_fn h with Some _ => true | None => false end) hs
+                                      | None => false end) scales) scales = true.
+Proof. exact routes_total_lemma. Qed.
+Print Assumptions routes_total.
+
+(* to_scale a b is the composition of the hops along the unique tree path utc - tai - {gps, tt - tcg} *)
+Theorem route_is_tree_path : forall a b x, In a scales -> In b scales ->
+  to_scale a b x = option_map (fun f => f x) (conv_tree a b) /\ conv_tree a b <> None.
+Proof. exact route_lemma. Qed.
+Print Assumptions route_is_tree_path.
+
+(* A -> B -> C = A -> C exactly, for all epochs and all triples except those that go to UTC and come back
+   (B = utc between two other scales, or utc -> B -> utc) *)
+Theorem two_hop_path_independent_exact : forall a b c x y z w, In a scales -> In b scales -> In c scales ->
+  exact_triple a b c = true ->
+  to_scale a b x = Some y -> to_scale b c y = Some z -> to_scale a c x = Some w -> z == w.
+Proof. exact path_exact_lemma. Qed.
+Print Assumptions two_hop_path_independent_exact.
+
+(* UTC as the intermediate scale, starting from a TAI instant that is the image of a UTC instant of the domain:
+   TAI -> UTC -> C versus TAI -> C within 9 ns for every C.
+   PARTIAL: the same for A = gps, tt, tcg follows with hop_inverse_exact (A -> tai is an exact bijection) but is not assembled. *)
+Theorem two_hop_path_independent_partial : forall c r n u y z w, In c scales ->
+  adjacent table r n -> rt_dom r n u ->
+  to_scale "tai" "utc" (utc2tai u) = Some y -> to_scale "utc" c y = Some z -> to_scale "tai" c (utc2tai u) = Some w ->
+  Qabs (z - w) <= 9 * ns.
+Proof. exact via_utc_from_tai_lemma. Qed.
+Print Assumptions two_hop_path_independent_partial.
+
+(* A -> B -> A: exact when neither is UTC; utc -> B -> utc within 4 ns on the domain *)
+Theorem roundtrip_all_pairs :
+  (forall a b x y z, In a scales -> In b scales -> a <> "utc"%string -> b <> "utc"%string ->
+     to_scale a b x = Some y -> to_scale b a y = Some z -> z == x) /\
+  (forall b r n u y z, In b scales -> adjacent table r n -> rt_dom r n u ->
+     to_scale "utc" b u = Some y -> to_scale b "utc" y = Some z -> Qabs (z - u) <= 4 * ns).
+Proof. split; [exact roundtrip_non_utc_lemma|exact utc_via_any_lemma]. Qed.
+Print Assumptions roundtrip_all_pairs.
+
+(* arrays: the index-list / element-wise formulation of delta_tai_utc is the map of the scalar conversion
+   (result element i depends on input element i only) *)
+Theorem to_scale_pointwise : forall tbl xs, utc2tai_list tbl xs = map (utc2tai_t tbl) xs.
+Proof. exact utc2tai_list_pointwise. Qed.
+Print Assumptions to_scale_pointwise.
+
+(* quirk: selecting the row with the double jd1+jd2 is NOT the specification: 2016-12-31 23:59:59.99998 UTC *)
+Theorem c01_row_by_float_sum_refuted :
+  let j1 := (24577535 # 10) in let j2 := dyq (Dy 9007199252655991 (-53)) in
+  (F_utc2tai all_off j1 j2 - (j1 + j2)) * day == 36 /\
+  (F_utc2tai q_float j1 j2 - (j1 + j2)) * day == 37.
+Proof. exact float_quirk_witness. Qed.
+Print Assumptions c01_row_by_float_sum_refuted.
+
+(* the first instants of a drift row whose start is a step are NOT inverted by the two-step lookup, even in exact
+   arithmetic: 1963-11-01 0h UTC comes back more than 4 ms off (0.1 s) *)
+Theorem utc_tai_utc_boundary_refuted :
+  let u := (4876669 # 2) in
+  in_row u (nth 3 table dummy_row) = true /\ ~ Qabs (tai2utc (utc2tai u) - u) <= 1000000 * eps_rt.
+Proof. exact drift_boundary_witness. Qed.
+Print Assumptions utc_tai_utc_boundary_refuted.
+
+(* ------------------------------------------------------------------ non-vacuity *)
+(* the labels excluded at the end of each row, in seconds: 0.05 s (1961-08-01), 3.7 ns (rate change 1962-01-01),
+   0.1 s (1968-02-01), nothing else *)
+Example skips_are :
+  map (fun p => Qred (skip (fst p) (snd p) * day)) (combine table (tl table)) =
+  [1 # 20; 922929 # 250000000000000; 0; 0; 0; 0; 0; 0; 0; 0; 0; 1 # 10; 0; 0; 0; 0; 0; 0; 0; 0;
+   0; 0; 0; 0; 0; 0; 0; 0; 0; 0; 0; 0; 0; 0; 0; 0; 0; 0; 0; 0].
+Proof. exact skips_computed. Qed.
+
+Example leap_second_2016 :
+  (* 2016-12-31 23:59:59.5 UTC -> 36 s; 2017-01-01 00:00:00 UTC -> 37 s; 1965-03-01 0h -> 3.716594 s; J2000 TT -> TCG-TT *)
+  (utc2tai ((24577535 # 10) + (863995 # 864000)) - ((24577535 # 10) + (863995 # 864000))) * day == 36 /\
+  (utc2tai (24577545 # 10) - (24577545 # 10)) * day == 37 /\
+  (utc2tai (24388205 # 10) - (24388205 # 10)) * day == (3716594 # 1000000) /\
+  Qred (to_scale_list "utc" "tai" [24577545 # 10] = [Some (utc2tai (24577545 # 10))] -> 0) = 0 /\
+  rt_dom (nth 39 table dummy_row) (nth 40 table dummy_row) ((24577535 # 10) + (863995 # 864000)).
+Proof. repeat split; vm_compute; try reflexivity; try discriminate. Qed.
